@@ -143,10 +143,12 @@ def field_index(proj):
 
 
 class Flow:
-    def __init__(self, facts, body, extra_transparent=None):
+    def __init__(self, facts, body, extra_transparent=None, call_hook=None):
         self.facts = facts
         self.body = body
         self.extra = extra_transparent or {}
+        # call_hook(flow, bb, term, name) -> list of transparent arg indices | "opaque" | None (default rules)
+        self.call_hook = call_hook
         self._build_defs()
         self._rd_in = None
         self._memo = {}
@@ -471,11 +473,92 @@ class Flow:
             return self._operand_origins(rv[1], (), at, stack)
         return {("other", bb, j)}
 
+    # ---- strong update for constant-index paths: `v[1][0] = x; ... v[1][0]` reads x
+    def _index_path(self, op, depth=0):
+        """(root local, (k1, k2, ..)) for an operand reached through Index/IndexMut calls with constant indices"""
+        if op[0] == "k" or depth > 8:
+            return None
+        l = op[1][0]
+        ds = self.defs_of.get(l, [])
+        if len(ds) == 1:
+            _, bb, j = self.defs[ds[0]]
+            if bb >= 0 and j is None:
+                t = self.body.term(bb)
+                n = callee_name(t) or ""
+                if n.endswith(("::index", "::index_mut")) and len(t["args"]) == 2:
+                    k = t["args"][1]
+                    if k[0] == "k" and k[4] is not None:
+                        base = self._index_path(t["args"][0], depth + 1)
+                        if base is not None:
+                            return (base[0], base[1] + (int(k[4]),))
+                    return (self.root_of(l), None)  # non-constant index
+            elif bb >= 0:
+                rv = self.body.stmts(bb)[j][2]
+                if rv[0] in ("ref", "raw") and len([p for p in rv[2][1:] if p != "*"]) == 0:
+                    return self._index_path(["c", [rv[2][0]]], depth + 1)
+                if rv[0] == "use" and rv[1][0] != "k" and len([p for p in rv[1][1][1:] if p != "*"]) == 0:
+                    return self._index_path(rv[1], depth + 1)
+        return (l, ())
+
+    def _strong_index_read(self, bb, stack):
+        """origins for `Index::index(.., const)` when a dominating write to the same constant path exists
+        and no other write to the container can intervene; None = fall back to the weak (collapsed) answer"""
+        from . import cfg as C
+        t = self.body.term(bb)
+        k = t["args"][1]
+        if k[0] != "k" or k[4] is None:
+            return None
+        base = self._index_path(t["args"][0])
+        if base is None or base[1] is None:
+            return None
+        root, path = base[0], base[1] + (int(k[4]),)
+        writes = []
+        for (wb, wj, place, rv) in self.ptr_writes.get(root, ()):
+            wp = self._index_path(["c", [place[0]]])
+            writes.append((wb, wj, rv, wp[1] if wp and wp[0] == root else None))
+        if not writes:
+            return None
+        cands = [w for w in writes if w[3] == path and C.dominates(self.body, w[0], bb)]
+        if not cands:
+            return None
+        best = None
+        for w in cands:
+            if all(C.dominates(self.body, o[0], w[0]) for o in cands):
+                best = w
+        if best is None:
+            return None
+        region = C.reachable_after(self.body, best[0]) if best[0] != bb else set()
+        for w in writes:
+            if w is best:
+                continue
+            overlap = w[3] is None or w[3] == path or w[3] == path[:len(w[3])] or path == w[3][:len(path)]
+            if overlap and (w[0] in region and bb in C.reachable(self.body, [w[0]]) or
+                            (w[0] == best[0] and w[1] > best[1])):
+                return None
+        for (sb, ops) in self.stores.get(root, ()):
+            if sb in region and bb in C.reachable(self.body, [sb]):
+                return None
+        return self._rvalue_origins(best[2], (), (best[0], best[1]), stack)
+
     def _call_origins(self, bb, projs, stack):
         t = self.body.term(bb)
         name = callee_name(t)
         if name is None:
             return {("call", bb, "<indirect>")}
+        if name.endswith("::index") and len(t["args"]) == 2 and is_std_path(name):
+            strong = self._strong_index_read(bb, stack)
+            if strong is not None:
+                return strong
+        if self.call_hook is not None:
+            h = self.call_hook(self, bb, t, name)
+            if h == "opaque":
+                return {("call", bb, name)}
+            if h is not None:
+                out = {("via", bb, name)}
+                for i in h:
+                    if i < len(t["args"]):
+                        out |= self._operand_origins(t["args"][i], (), (bb, None), stack)
+                return out
         ta = transparent_args(name, self.extra)
         if ta is None and t["f"].get("def") in ("std::clone::Clone::clone", "std::borrow::ToOwned::to_owned",
                                                  "std::ops::Deref::deref", "std::ops::DerefMut::deref_mut"):
